@@ -18,8 +18,9 @@
 //   R status=<int|-1> sstr=<status string, '_' for ' '> ret=<returned status int> nit= nsamp= cost=%a gnorm=%a
 //     start=%a x=%a,.. fresh=%a g=%a,.. (fresh cost/gradient at the returned x, evaluated after the call)
 //     ncb=<callbacks> viol=%a violcb=<index of first offending callback|-1> violkind=<c|g|h|-> violi=<component>
-//     violx=%a pviol=%a (same for report_progress) nfc=<callbacks that returned non-finite cost>
+//     violx=%a violscale=%a (largest |x_i| of that component in earlier callbacks) pviol=%a (same for report_progress) nfc=<callbacks that returned non-finite cost>
 //     nfg=<... non-finite gradient> lastcb=<kind of last callback> lastx_is_ret=<0|1> first=%a,.. (x of 1st callback)
+//     absmax=%a,.. (largest |x_i| per component over all callbacks)
 //   R status=NO-TERMINATION ...      callback limit hit (watchdog)      R status=EXC what=...   library threw
 //   (wall-clock watchdog: SIGALRM prints "R status=NO-TERMINATION alarm=1" and _exit(0))
 #include "spy.h"
@@ -73,12 +74,13 @@ struct Problem : public Optimizable {
   bool bounded;
   // instrumentation
   long ncb, maxcb, nfc, nfg;
-  double viol, pviol, violx; long violcb; char violkind; int violi;
+  double viol, pviol, violx, violscale; long violcb; char violkind; int violi;
+  std::vector<double> absmax;
   char lastkind; std::vector<double> lastx, firstx;
   bool counting;
   std::vector<std::string> trace; bool want_trace;
 
-  Problem() : n(0), bounded(false), ncb(0), maxcb(200000), nfc(0), nfg(0), viol(0), pviol(0), violx(0), violcb(-1),
+  Problem() : n(0), bounded(false), ncb(0), maxcb(200000), nfc(0), nfg(0), viol(0), pviol(0), violx(0), violscale(0), violcb(-1),
               violkind('-'), violi(-1), lastkind('-'), counting(true), want_trace(false) {}
 
   bool in_region(const std::vector<double>& x) const {
@@ -144,14 +146,14 @@ struct Problem : public Optimizable {
     for (int i = 0; i < n; ++i) {
       double v = 0;
       if (x[i] != x[i]) v = std::numeric_limits<double>::infinity();
-      else if (x[i] < lo[i]) v = lo[i] - x[i];
-      else if (x[i] > up[i]) v = x[i] - up[i];
+      else if (lo[i] > -RMAX && x[i] < lo[i]) v = lo[i] - x[i];   // +-max is the library's "no bound"
+      else if (up[i] < RMAX && x[i] > up[i]) v = x[i] - up[i];
       if (v > 0) note(kind, i, v, x[i]);
     }
   }
   void note(char kind, int i, double v, double xi) {
     if (kind == 'p') { if (v > pviol) pviol = v; return; }
-    if (v > viol) { viol = v; violcb = ncb; violkind = kind; violi = i; violx = xi; }
+    if (v > viol) { viol = v; violcb = ncb; violkind = kind; violi = i; violx = xi; violscale = i < (int)absmax.size() ? absmax[i] : 0.0; }
   }
 
   std::vector<double> enter(const Vector& x, char kind) {
@@ -160,7 +162,9 @@ struct Problem : public Optimizable {
     if (!counting) return xv;
     if (kind != 'p') {
       if (ncb == 0) firstx = xv;
-      check_box(xv, kind);
+      absmax.resize(n, 0.0);
+      check_box(xv, kind);   // absmax still holds the magnitudes seen BEFORE this callback
+      for (int i = 0; i < n; ++i) if (std::fabs(xv[i]) > absmax[i]) absmax[i] = std::fabs(xv[i]);
       ++ncb;
       lastkind = kind; lastx = xv;
       if (want_trace && trace.size() < 400) trace.push_back(std::string(1, kind) + ":" + hexv(xv));
@@ -352,9 +356,9 @@ int main() {
     for (int i = 0; lastsame && i < n; ++i) if (!(P.lastx[i] == xr[i])) lastsame = false;
     os << " x=" << hexv(xr) << " fresh=" << hexd(fresh) << " g=" << hexv(gfresh)
        << " ncb=" << P.ncb << " viol=" << hexd(P.viol) << " violcb=" << P.violcb << " violkind=" << P.violkind
-       << " violi=" << P.violi << " violx=" << hexd(P.violx) << " pviol=" << hexd(P.pviol)
+       << " violi=" << P.violi << " violx=" << hexd(P.violx) << " violscale=" << hexd(P.violscale) << " pviol=" << hexd(P.pviol)
        << " nfc=" << P.nfc << " nfg=" << P.nfg << " lastcb=" << P.lastkind << " lastx_is_ret=" << (lastsame ? 1 : 0)
-       << " first=" << hexv(P.firstx);
+       << " first=" << hexv(P.firstx) << " absmax=" << hexv(P.absmax);
     if (P.want_trace) { os << " trace="; for (size_t i = 0; i < P.trace.size(); ++i) { if (i) os << ";"; os << P.trace[i]; } if (P.trace.empty()) os << "-"; }
     if (!hooklog.empty()) { os << " log="; for (size_t i = 0; i < hooklog.size(); ++i) { if (i) os << ";"; os << hooklog[i]; } }
     std::cout << os.str() << std::endl;
